@@ -26,6 +26,7 @@ class Prof:
     notations: tuple = ()  # live Notation objects (any arity)
     id_hi: int = 255
     bot: bool = False
+    sym_names: tuple = ()  # overrides the default symbol name pool
     wf_subst: bool = True  # only non-redundant ESubst/SSubst nodes (docs: the others are ill-formed terms)
     mv_shared: bool = False  # all occurrences of a metavariable id carry the same constraint lists
     raw_inst: bool = False  # Instantiate(pattern, {k: value}) with an arbitrary pattern (partial instantiation)
@@ -66,7 +67,7 @@ def gen(ctx: Any, n: int, prof: Prof, meta_only: bool = False) -> Any:
             if prof.svar:
                 opts.append(('sv',))
             for i in range(prof.symbol):
-                opts.append(('sym', SYMS[i]))
+                opts.append(('sym', (prof.sym_names or SYMS)[i]))
         for k in range(prof.metavars):
             for cfg in prof.mv_cfgs:
                 opts.append(('mv', k, cfg))
